@@ -17,6 +17,7 @@ RULE = ('Hypothesis draws histories of 2-8 operations over 3 reusable PGPMessage
         '(same or other passphrase/cipher/hash, also after export/import); includes encrypting the identical message object to the identical recipient repeatedly. '
         'Non-trivial: a history with >= 2 operations on identical inputs; distinct by (operation kinds, ciphers, recipient kinds).')
 RULE += ' One operation encrypts a message for 2-3 passphrases (optionally plus a key recipient) sharing a session key: every SKESK must carry its own fresh salt.'
+RULE += ' Supplied session keys of another length that the backend takes for the cipher family must be refused (or never used).'
 ASSUMPTIONS = ['unpredictability of the OS random source is out of scope; provenance (drawn from os.urandom during the operation), size, distinctness and non-appearance are checked',
                'ECDH ephemeral keys come from the cryptography library\'s generator and are only checked for distinctness', 'refpgp.enc/keys recover the values from the output']
 
@@ -231,8 +232,53 @@ def scripted(arg):
     return rec
 
 
+OTHER_LENGTHS = {2: (8, 16), 3: (5, 8), 4: (4, 32), 7: (24, 32), 8: (16, 32), 9: (16, 24), 11: (24, 32), 12: (16, 32), 13: (16, 24)}
+
+
+def wronglen(arg):
+    """a caller-supplied session key of a length the backend takes for the cipher's family but that is not the cipher's key size
+    (AES-256 with 16 octets, Triple-DES with 8 = single DES): refused, or the message carries a key of the cipher's size all the same --
+    never a message labelled with cipher X under a key that is not X's size"""
+    import pgpy
+    from pgpy.constants import SymmetricKeyAlgorithm, CompressionAlgorithm
+    seed = arg
+    rec = harness.Rec()
+    pubcert = keypool.pgpy_key(enckit.recipient_cert(RECIPS, secret=False))
+    subs = {str(s.fingerprint): s for s in pubcert.subkeys.values()}
+    for ci, (cipher, lens) in enumerate(sorted(OTHER_LENGTHS.items())):
+        for li, L in enumerate(lens):
+            kind = ['pass', 'cv25519-0', 'rsa1024-0', 'ecdh-p256-0'][(ci + li + seed) % 4]
+            case = {'kind': 'wronglen', 'cipher': cipher, 'len': L, 'recipient': kind}
+            rec.case(('wronglen', cipher, L, kind), True, ['supplied-key-of-another-length', 'cipher/%d' % cipher, 'recipient/' + kind.split('-')[0]],
+                     {'cipher': cipher, 'supplied_key_octets': L, 'cipher_key_octets': rsym.KEYLEN[cipher], 'recipient': kind})
+            sk = bytes((17 * i + 3 + seed) & 0xFF for i in range(L))
+            msg = pgpy.PGPMessage.new(b'wrong length', compression=CompressionAlgorithm.Uncompressed)
+            try:
+                if kind == 'pass':
+                    e = msg.encrypt('pw', cipher=SymmetricKeyAlgorithm(cipher), sessionkey=sk)
+                else:
+                    e = subs[keypool.ref_public(kind).fingerprint.hex().upper()].encrypt(msg, cipher=SymmetricKeyAlgorithm(cipher), sessionkey=sk)
+                blob = bytes(e)
+            except Exception:   # noqa
+                rec.note('supplied-key-of-another-length/refused')
+                continue
+            try:
+                pm = grammar.parse_message(blob)
+                p = pm.esks[0]
+                if p.tag == 3:
+                    symid, key = renc.skesk_decrypt(renc.parse_skesk(p.body), 'pw')
+                else:
+                    symid, key = renc.pkesk_decrypt(renc.parse_pkesk(p.body), keypool.ref_secret(kind))
+            except wire.WireError as ex:
+                rec.finding('size', 'session-key-size/supplied-key-of-another-length', case, 'the recipient cannot recover a session key: %s' % ex)
+                continue
+            if len(key) != rsym.KEYLEN[cipher]:
+                rec.finding('size', 'session-key-size/supplied-key-of-another-length', case, 'cipher %d message under a key of %d octets' % (cipher, len(key)))
+    return rec
+
+
 def run(tier, seed):
-    tasks = [('scripted', i) for i in range(len(SCRIPTS))]
+    tasks = [('scripted', i) for i in range(len(SCRIPTS))] + [('wronglen', seed)]
     n, bsec = (40, 90) if tier == 'quick' else (400, 1200)
     for i in range(12 if tier == 'quick' else 28):
         tasks.append(('shard', (seed, i, n, bsec)))
@@ -244,5 +290,7 @@ def dispatch(task):
 
 
 def replay(case):
+    if case.get('kind') == 'wronglen':
+        return [(f['clause'], f['cause'], f['detail']) for f in wronglen(0).findings]
     f, kinds, counts = run_history(case['ops'], harness.Rec())
     return f
